@@ -140,7 +140,16 @@ def run_cases(ctx, cases, label):
                                         f"the impersonated packet is fingerprinted as {a!r}, not 'exact' at distance {c['hops']} (signature {c['sig']!r})",
                                         op=line, impl=a, model=b, extra={"sig": c["sig"], "imprun_op": op, "stream": label}))
         expl = full.split(" | explain=")[1] if " | explain=" in full else full
+        thm = "0"
+        if " thm=" in expl:
+            expl, thm = expl.rsplit(" thm=", 1)
         ctx.hist[f"{label}:explain:{expl.split('@')[0].split('(')[0]}"] += 1
+        ctx.hist[f"{label}:covered-by-imp_exact_partial:{thm}"] += 1
+        if thm == "1" and expl == "ok" and b != want:
+            # the hypotheses of the theorem hold for this run and the model reproduces it, yet the verdict is not exact:
+            # the (checked) link between extractOut and the bytes, or the theorem's reading of the matcher, is off
+            ctx.failures.append(Failure("correspondence", f"run covered by imp_exact_partial and explained by the model, but judged {b!r}",
+                                        op=line, impl=a, model=full, extra={"sig": c["sig"], "imprun_op": op, "stream": label + "-theorem"}))
         if expl != "ok" and cls == "supported":
             ctx.failures.append(Failure("correspondence",
                                         f"the Lean model of impersonate_tcp does not reproduce this run: {expl} (signature {c['sig']!r})",
